@@ -25,8 +25,8 @@ pub fn prop() -> Prop {
         id: "C06",
         level: "fault_enumeration",
         runs: |t| match t {
-            Tier::Quick => 3500,
-            Tier::Thorough => 40000,
+            Tier::Quick => 2500,
+            Tier::Thorough => 30000,
         },
         generate,
         exec,
@@ -402,6 +402,9 @@ fn exec_c<C: Suite>(scen: &Scenario) -> Exec {
         }
         // boundary values that are valid must behave
         let mut boundary: Vec<(u16, u16)> = vec![(2, 2), (3, 2)];
+        if C::COST <= 2 {
+            boundary.extend([(257, 2), (256, 3)]);
+        }
         if scen.extra["big_params"].as_bool().unwrap_or(false) {
             boundary.extend([(255, 2), (256, 255), (257, 256), (65535, 2)]);
             rep.probe("big_params");
